@@ -162,19 +162,19 @@ theorem gen_cmpStartSign : MpsGen.Alg.cmpStartSign =
       "ECDSA[j] = lagrange[j].Act(public.ECDSA)",
       "PublicKey = PublicKey.Add(ECDSA[j])" ] := by decide
 
-/-- [C14] ties Alg.doernerDerive — FINDING: adds the tweak (as the sender does too); no ChainKey in the literal -/
+/-- [C14] ties Alg.doernerDeriveReceiver: the receiver ADDS the tweak; `ChainKey: newChainKey` (since 4df2a70; before: `doernerDeriveOld`) -/
 theorem gen_doernerDeriveReceiver : MpsGen.Alg.doernerDeriveReceiver =
     [ "newChainKey = c.ChainKey",
       "adjustG := adjust.ActOnBase()",
       "len(newChainKey) != params.SecBytes => nil, fmt.Errorf(\"expecte %d bytes for chain key, found %d\", params.SecBytes, len(newChainKey))",
-      "ConfigReceiver{ Setup: c.Setup, SecretShare: c.SecretShare.Curve().NewScalar().Set(c.SecretShare).Add(adjust), Public: c.Public.Add(adjustG), }" ] := by decide
+      "ConfigReceiver{ Setup: c.Setup, SecretShare: c.SecretShare.Curve().NewScalar().Set(c.SecretShare).Add(adjust), Public: c.Public.Add(adjustG), ChainKey: newChainKey, }" ] := by decide
 
-/-- [C14] ties Alg.doernerDerive — FINDING: adds the tweak (as the receiver does too); no ChainKey in the literal -/
+/-- [C14] ties Alg.doernerDeriveSender: the sender KEEPS its share (no `.Add(adjust)`); `ChainKey: newChainKey` (since 4df2a70; before: `doernerDeriveOld`) -/
 theorem gen_doernerDeriveSender : MpsGen.Alg.doernerDeriveSender =
     [ "newChainKey = c.ChainKey",
       "adjustG := adjust.ActOnBase()",
       "len(newChainKey) != params.SecBytes => nil, fmt.Errorf(\"expecte %d bytes for chain key, found %d\", params.SecBytes, len(newChainKey))",
-      "ConfigSender{ Setup: c.Setup, SecretShare: c.SecretShare.Curve().NewScalar().Set(c.SecretShare).Add(adjust), Public: c.Public.Add(adjustG), }" ] := by decide
+      "ConfigSender{ Setup: c.Setup, SecretShare: c.SecretShare.Curve().NewScalar().Set(c.SecretShare), Public: c.Public.Add(adjustG), ChainKey: newChainKey, }" ] := by decide
 
 /-- [C08] ties Alg.doernerNewShare, Alg.doernerPublic; the chain key is re-drawn on refresh too -/
 theorem gen_doernerKeygenShares : MpsGen.Alg.doernerKeygenShares =
@@ -334,10 +334,10 @@ theorem gen_frostKeygenChecks : MpsGen.Alg.frostKeygenChecks =
       "!body.Phi_i.Constant().IsIdentity() => fmt.Errorf(\"party %s sent a non-zero constant while refreshing\", from)",
       "!body.Sigma_i.Verify(r.Helper.HashForID(from), body.Phi_i.Constant(), nil) => fmt.Errorf(\"failed to verify Schnorr proof for party %s\", from)" ] := by decide
 
-/-- [C14] ties FINDING: neither Config literal has a ChainKey field — the computed chain key is dropped -/
+/-- [C14] ties Alg.frostResultChainKey: both result literals carry `ChainKey: ChainKey` (since eba3819; before, the field was missing: `frostResultChainKeyOld`) -/
 theorem gen_frostKeygenConfig : MpsGen.Alg.frostKeygenConfig =
-    [ "TaprootConfig{ ID: r.SelfID(), Threshold: r.threshold, PrivateShare: r.privateShare.(*curve.Secp256k1Scalar), PublicKey: YSecp.XBytes()[:], VerificationShares: secpVerificationShares, }",
-      "Config{ ID: r.SelfID(), Threshold: r.threshold, PrivateShare: r.privateShare, PublicKey: r.publicKey, VerificationShares: party.NewPointMap(r.verificationShares), }" ] := by decide
+    [ "TaprootConfig{ ID: r.SelfID(), Threshold: r.threshold, PrivateShare: r.privateShare.(*curve.Secp256k1Scalar), PublicKey: YSecp.XBytes()[:], ChainKey: ChainKey, VerificationShares: secpVerificationShares, }",
+      "Config{ ID: r.SelfID(), Threshold: r.threshold, PrivateShare: r.privateShare, PublicKey: r.publicKey, ChainKey: ChainKey, VerificationShares: party.NewPointMap(r.verificationShares), }" ] := by decide
 
 /-- [C02] ties Alg.finalShare, Alg.frostGroupKey, Alg.finalPublicFrost; the chain key is computed into a local -/
 theorem gen_frostKeygenFinal : MpsGen.Alg.frostKeygenFinal =
@@ -495,5 +495,16 @@ theorem gen_scalarSetNat : MpsGen.Alg.scalarSetNat =
       "p.value.ToAffine()",
       "out.value.SetBytes(p.value.X.Bytes())",
       "return out" ] := by decide
+
+/-- [C08] ties Alg.finalShare as a PURE function of the previous share: on refresh the rounds work on a copy
+    (`NewScalar().Set(privateShare)`, since 8e08e3b), so the caller's old config is not modified -/
+theorem gen_frostRefreshStart : MpsGen.Alg.frostRefreshStart =
+    [ "refresh := true",
+      "if privateShare != nil && publicKey != nil {",
+      "privateShare = group.NewScalar().Set(privateShare)",
+      "if privateShare == nil || publicKey == nil {",
+      "refresh = false",
+      "privateShare = group.NewScalar()",
+      "publicKey = group.NewPoint()" ] := by decide
 
 end Mps.AlgGen
